@@ -166,7 +166,7 @@ class StatusMonitor:
         # VV: adding floats is hard, let's assume that there're at most 2 decimals
         int_weights = [int(e * 1000) for e in weights]
 
-        if reduce(operator.add, int_weights) != 1000:
+        if reduce(operator.add, int_weights) != 1000 or min(weights) < 0:
             self.log.warning("Stage weights do not add to one: %s = %3.2lf\n" % (weights, reduce(operator.add, weights)))
             self.log.warning("All stage-weights will default to %3.2lf\n" % fallbackWeight)
             weights = [fallbackWeight]*len(self.commands)
